@@ -96,18 +96,6 @@ func (r *Reader) validate() error {
 		}
 	}
 
-	// Check for at least one slide
-	hasSlide := false
-	for name := range fileMap {
-		if strings.HasPrefix(name, "ppt/slides/slide") && strings.HasSuffix(name, ".xml") {
-			hasSlide = true
-			break
-		}
-	}
-	if !hasSlide {
-		return fmt.Errorf("no slides found in presentation")
-	}
-
 	return nil
 }
 
@@ -150,21 +138,31 @@ func (r *Reader) parsePresentation() error {
 
 // parseSlides parses all slide files.
 func (r *Reader) parseSlides() error {
-	// Find all slide files
-	slideFiles := make([]string, 0)
-	for _, f := range r.zipReader.File {
-		if strings.HasPrefix(f.Name, "ppt/slides/slide") && strings.HasSuffix(f.Name, ".xml") {
-			// Exclude relationship files
-			if !strings.Contains(f.Name, "_rels") {
-				slideFiles = append(slideFiles, f.Name)
+	// The slide list of the presentation (sldIdLst), resolved through the
+	// presentation relationships, defines which parts are slides and in
+	// which order they are shown.
+	slideFiles := r.declaredSlideFiles()
+
+	if len(slideFiles) == 0 {
+		// No usable slide list: fall back to the conventional part names
+		for _, f := range r.zipReader.File {
+			if strings.HasPrefix(f.Name, "ppt/slides/slide") && strings.HasSuffix(f.Name, ".xml") {
+				// Exclude relationship files
+				if !strings.Contains(f.Name, "_rels") {
+					slideFiles = append(slideFiles, f.Name)
+				}
 			}
 		}
+
+		// Sort slides by number
+		sort.Slice(slideFiles, func(i, j int) bool {
+			return extractSlideNumber(slideFiles[i]) < extractSlideNumber(slideFiles[j])
+		})
 	}
 
-	// Sort slides by number
-	sort.Slice(slideFiles, func(i, j int) bool {
-		return extractSlideNumber(slideFiles[i]) < extractSlideNumber(slideFiles[j])
-	})
+	if len(slideFiles) == 0 {
+		return fmt.Errorf("no slides found in presentation")
+	}
 
 	r.slides = make([]*Slide, 0, len(slideFiles))
 
@@ -188,6 +186,44 @@ func (r *Reader) parseSlides() error {
 	}
 
 	return nil
+}
+
+// declaredSlideFiles returns the slide parts in the order of the
+// presentation's slide list. Entries whose relationship or part is missing
+// are skipped.
+func (r *Reader) declaredSlideFiles() []string {
+	if r.presentation == nil || r.presentation.SlideIdList == nil || r.presRels == nil {
+		return nil
+	}
+
+	targets := make(map[string]string, len(r.presRels.Relationship))
+	for _, rel := range r.presRels.Relationship {
+		targets[rel.ID] = rel.Target
+	}
+
+	present := make(map[string]bool, len(r.zipReader.File))
+	for _, f := range r.zipReader.File {
+		present[f.Name] = true
+	}
+
+	var files []string
+	for _, sld := range r.presentation.SlideIdList.SlideId {
+		target := targets[sld.RID]
+		if target == "" {
+			continue
+		}
+		// Targets are relative to ppt/ unless they start at the package root
+		var name string
+		if strings.HasPrefix(target, "/") {
+			name = strings.TrimPrefix(path.Clean(target), "/")
+		} else {
+			name = path.Join("ppt", target)
+		}
+		if present[name] {
+			files = append(files, name)
+		}
+	}
+	return files
 }
 
 // extractSlideNumber extracts the slide number from a path like "ppt/slides/slide1.xml"
